@@ -265,6 +265,28 @@ def main(ctx):
         for ti, tail in enumerate(mutate.TAILS):
             for pre in (b'', prefix[lang]):
                 cases.append(family.Case(pre + tail, lang, {}, {'kind': 'eof-in-construct', 'tail': ti, 'cfgkind': 'default'}, {'quiet': False, 'profile': None}))
+    # (b3) deep nesting (beyond the fixed-size per-level tables of some passes) under the alignment options
+    reg_ = registry.load()
+    align_all = {}
+    for o in reg_:
+        if o['name'].startswith('align_') and registry.klass(o['name']) == 'WS':
+            if o['type'] == 'bool':
+                align_all[o['name']] = 'true'
+            elif o['type'] == 'num' and o['name'].endswith('_span'):
+                align_all[o['name']] = '2'
+    for depth in (17, 33, 70):
+        shapes = {
+            'CPP': [''.join('namespace n%d {\n' % i for i in range(depth)) + 'void f(\n   int a,\n   char  b);\nint x = 1;\n' + '}\n' * depth,
+                    ''.join('struct s%d {\n' % i for i in range(depth)) + 'int a;\nchar bb; // c\n' + '};\n' * depth],
+            'C': ['void f(void)\n{\n' + '{\n' * depth + 'int a = 1;\nchar bb = 2; /* c */\ng(a,\n  bb);\n' + '}\n' * depth + '}\n',
+                  'int x = ' + '(' * depth + '1 +\n 2' + ')' * depth + ';\n',
+                  'int a[] = ' + '{' * depth + ' 1,\n 22 ' + '}' * depth + ';\n'],
+        }
+        for lang, srcs in shapes.items():
+            for si, src in enumerate(srcs):
+                for ci, cd in enumerate(({}, align_all)):
+                    cases.append(family.Case(src.encode(), lang, dict(cd), {'kind': 'deep-nesting', 'depth': depth, 'shape': si, 'cfgkind': 'align-all' if ci else 'default'},
+                                             {'quiet': False, 'profile': None}))
     # (c) random bytes
     for i in range(600 if quick else 8000):
         r = random.Random(core.subseed(ctx.useed, 'rnd', i))
